@@ -116,18 +116,22 @@ def c12_1(ctx):
         n = sliced[0]
         cl = facts_at(ctx, f, n, rz)
         flags = {l for c in cl if len(c) == 1 for l in c}
-        ok = {('truthy', 'self._is_lsb_bytes', True), ('truthy', 'self._match_address_msb', True)} <= flags
+        # sliced exactly when slice_lsb is configured - whether or not the high bits are also compared
+        flags = {l for l in flags if l[0] != 'isnone'}       # (the guard that an instruction address was passed at all)
+        ok = flags == {('truthy', 'self._is_lsb_bytes', True)} and all(len(c) == 1 for c in cl)
         m = n.value
         mask = m.right if isinstance(m, ast.BinOp) else None
         ok = ok and mask is not None and to_lin(mask, res).key() == to_lin(ast.parse('(1 << self.value_size) - 1', mode='eval').body, res).key()
-    ctx.check(ok, 'slice:mask-width', f.site(sliced[0]) if sliced else f.site(), 'a sliced address keeps exactly the low value_size bits', '; '.join(unparse(s) for s in sliced))
+    ctx.check(ok, 'slice:mask-width', f.site(sliced[0]) if sliced else f.site(),
+              'an address configured with slice_lsb keeps exactly its low value_size bits (with or without match_address_msb)',
+              '; '.join(unparse(s) for s in sliced) + (f' under {describe_facts(facts_at(ctx, f, sliced[0], rz))}' if len(sliced) == 1 else ''))
     raises = [n for n in walk_no_nested(f.node) if isinstance(n, ast.Raise) or (isinstance(n, ast.Expr) and 'sys.exit' in unparse(n))]
     msb_ok = False
     detail = ''
     for r in raises:
         cl = facts_at(ctx, f, r, res)
         want = lit_cmp(ctx, f, '(instruction_address >> self.value_size) != (value >> self.value_size)', res)
-        if any(c == frozenset({want}) for c in cl):
+        if any(c == frozenset({want}) for c in cl) and any(c == frozenset({('truthy', 'self._match_address_msb', True)}) for c in facts_at(ctx, f, r, rz)):
             msb_ok = True
         detail = describe_facts(cl)
     ctx.check(msb_ok, 'slice:msb-equality-same-width', f.site(), 'the bits above the slice (address >> value_size) must equal those of the instruction address, else rejected',
@@ -389,7 +393,8 @@ MUTANTS = [
             relative_value -= instruction_size - 1
 ''', 'C12.1'),
     V('c12-zone-end-plus1', _P, "            if value > self._memzone.end:", "            if value > self._memzone.end + 1:", 'C12.1'),
-    V('c12-slice-shift-bytes', _A, "            shifted_address = instruction_address >> self.value_size\n            shifted_value = value >> self.value_size", "            shift = 8 * ((self.value_size + 7) // 8)\n            shifted_address = instruction_address >> shift\n            shifted_value = value >> shift", 'C12.1'),
+    V('c12-slice-shift-bytes', _A, "                shifted_address = instruction_address >> self.value_size\n                shifted_value = value >> self.value_size", "                shift = 8 * ((self.value_size + 7) // 8)\n                shifted_address = instruction_address >> shift\n                shifted_value = value >> shift", 'C12.1'),
+    V('c12-slice-only-with-msb-match', _A, "        if self._is_lsb_bytes:\n", "        if self._is_lsb_bytes and self._match_address_msb:\n", 'C12.1'),
     V('c12-width-byte-granular', _PB, '''        if value > max_value or value < min_value:
             raise OverflowError(f'value {value} does not fit in {bit_size} bits')
 ''', '', 'C12.3'),
